@@ -2,6 +2,7 @@ import Cirbo.Proofs.Connect
 import Cirbo.Proofs.ConnSem
 import Cirbo.Proofs.ConnFull
 import Cirbo.Proofs.ConnRight
+import Cirbo.Proofs.BlockExtract
 import Cirbo.Model.Wrappers
 /-!
 # C10 — Circuit composition computes the documented functional composition
@@ -12,7 +13,9 @@ import Cirbo.Model.Wrappers
 -- OBLIGATION: c10_left_connection_interface_and_block
 -- OBLIGATION: c10_wrappers_are_connections
 -- OBLIGATION: c10_right_connection_computes_the_composition
--- PARTIAL: proved for every left connection (connect_circuit(right_connect=False), connect_left, extend_circuit, add_circuit): (1) only gates are added and every base gate keeps its value under every assignment; (2) the attached gates compute the attached circuit's function of the values at the connectors (a renaming of the attached circuit's labels — connectors to the base gates they were identified with, other gates to their prefixed copies — turns every valuation of the result into a valuation of the attached circuit). (3) the exact inputs/outputs lists of the result (kept base interface minus connectors, then the attached circuit's unconnected inputs/outputs, renamed, in order), the block recording the attached circuit (its inputs/outputs are the attached circuit's, renamed) and the survival of older blocks (c10_left_connection_interface_and_block). The right direction (connect_circuit(right_connect=True), connect_right, connect_inputs, extend_circuit(right_connect=True)) is proved in the same form (c10_right_connection_computes_the_composition): the fed base inputs become the connector gates (same label, the connector's type and renamed operands), every other base gate is kept, so every valuation of the result satisfies the base circuit's gate equations and — read through the renaming — the attached circuit's; with the exact inputs/outputs lists, the recorded block and the survival of older blocks. Not yet proved: re-extraction of a block as a circuit. All of it is modelled one-to-one (Model/Mutate2.lean connStep/connFinish) and compared with the code field by field (both directions, wrappers, name/prefix options, repeated composition); the implementation's result is checked against the composed evaluation of the two operands on all assignments, against the documented interface, checkWFU and block extraction.
+-- OBLIGATION: c10_block_extraction_left
+-- OBLIGATION: c10_block_extraction_right
+-- PARTIAL: proved for every left connection (connect_circuit(right_connect=False), connect_left, extend_circuit, add_circuit): (1) only gates are added and every base gate keeps its value under every assignment; (2) the attached gates compute the attached circuit's function of the values at the connectors (a renaming of the attached circuit's labels — connectors to the base gates they were identified with, other gates to their prefixed copies — turns every valuation of the result into a valuation of the attached circuit). (3) the exact inputs/outputs lists of the result (kept base interface minus connectors, then the attached circuit's unconnected inputs/outputs, renamed, in order), the block recording the attached circuit (its inputs/outputs are the attached circuit's, renamed) and the survival of older blocks (c10_left_connection_interface_and_block). The right direction (connect_circuit(right_connect=True), connect_right, connect_inputs, extend_circuit(right_connect=True)) is proved in the same form (c10_right_connection_computes_the_composition): the fed base inputs become the connector gates (same label, the connector's type and renamed operands), every other base gate is kept, so every valuation of the result satisfies the base circuit's gate equations and — read through the renaming — the attached circuit's; with the exact inputs/outputs lists, the recorded block and the survival of older blocks. Re-extraction (c10_block_extraction_left/right): `get_block(name).into_circuit()` is modelled (Model/Wrappers.lean intoCircuit, compared with the code on every run) and proved to return, whenever it returns, a circuit with the attached circuit's renamed inputs and outputs in which every valuation is, through the renaming, a valuation of the attached circuit (the block lists exactly the images of the attached circuit's non-INPUT gates; for the right direction this needed the fix recorded in known_findings.json). That it does return is by correspondence. All of it is modelled one-to-one (Model/Mutate2.lean connStep/connFinish) and compared with the code field by field (both directions, wrappers, name/prefix options, repeated composition); the implementation's result is checked against the composed evaluation of the two operands on all assignments, against the documented interface, checkWFU and block extraction.
 -/
 namespace Cirbo
 open GateType Circuit
@@ -103,6 +106,29 @@ theorem c10_right_connection_computes_the_composition {c other c' : Circuit} {th
       (∀ n b, n ≠ name → c.getBlock n = .ok b → c'.getBlock n = .ok b) :=
   connect_right_semantics hwo hndc h
 
+/-- **when a block name is given, extracting that block gives back the attached circuit's function**
+(left direction) -/
+theorem c10_block_extraction_left {c other c' E : Circuit} {thisC otherC : List Label} {name : Label} {addP : Bool}
+    (hwo : WFG other) (hndc : c.labels.Nodup)
+    (h : c.connectCircuit other thisC otherC false name addP = .ok c') (hn : name ≠ "")
+    (hE : c'.blockIntoCircuit name = .ok E) :
+    ∃ φ : Label → Label,
+      (∀ l x, Dict.get? (connMapping thisC otherC) l = some x → φ l = x) ∧
+      (∀ g ∈ other.gates, g.label ∉ otherC → φ g.label = connPre name addP ++ g.label) ∧
+      (∀ b v, IsValB E b v → IsValB other (v ∘ φ) (v ∘ φ)) ∧
+      E.inputs = other.inputs.map φ ∧ E.outputs = other.outputs.map φ := extract_left hwo hndc h hn hE
+
+/-- the same for the right direction -/
+theorem c10_block_extraction_right {c other c' E : Circuit} {thisC otherC : List Label} {name : Label} {addP : Bool}
+    (hw : WFS c) (hwo : WFS other)
+    (h : c.connectCircuit other thisC otherC true name addP = .ok c') (hn : name ≠ "")
+    (hE : c'.blockIntoCircuit name = .ok E) :
+    ∃ φ : Label → Label,
+      (∀ l x, Dict.get? (connMapping thisC otherC) l = some x → φ l = x) ∧
+      (∀ g ∈ other.gates, Dict.contains (connMapping thisC otherC) g.label = false → φ g.label = connPre name addP ++ g.label) ∧
+      (∀ b v, IsValB E b v → IsValB other (v ∘ φ) (v ∘ φ)) ∧
+      E.inputs = other.inputs.map φ ∧ E.outputs = other.outputs.map φ := extract_right hw hwo h hn hE
+
 #print axioms c10_frame_add_gate
 #print axioms c10_left_connection_keeps_base_function
 #print axioms c10_left_connection_computes_the_composition
@@ -110,5 +136,7 @@ theorem c10_right_connection_computes_the_composition {c other c' : Circuit} {th
 #print axioms c10_left_connection_interface_and_block
 #print axioms c10_wrappers_are_connections
 #print axioms c10_right_connection_computes_the_composition
+#print axioms c10_block_extraction_left
+#print axioms c10_block_extraction_right
 
 end Cirbo
